@@ -509,7 +509,22 @@ var vrtIntrinsics = map[string]intrinsicFn{
 	"Int": func(ex *Exec, _ *ssa.Function, a []Value, _ ssa.Instruction) Value {
 		name := a[0].(string)
 		lo, hi := ex.concInt(a[1], "lo"), ex.concInt(a[2], "hi")
-		ex.rangesAll[stripIdx(name)] = [2]int64{lo, hi}
+		if o, ok := ex.rangesAll[stripIdx(name)]; ok {
+			if o[0] < lo {
+				lo2 := o[0]
+				_ = lo2
+			}
+			nl, nh := lo, hi
+			if o[0] < nl {
+				nl = o[0]
+			}
+			if o[1] > nh {
+				nh = o[1]
+			}
+			ex.rangesAll[stripIdx(name)] = [2]int64{nl, nh}
+		} else {
+			ex.rangesAll[stripIdx(name)] = [2]int64{lo, hi}
+		}
 		if ex.concrete != nil {
 			if r, ok := ex.concrete[name]; ok {
 				return r.Num().Int64()
@@ -571,7 +586,8 @@ var vrtIntrinsics = map[string]intrinsicFn{
 	"AssertEqF": func(ex *Exec, _ *ssa.Function, a []Value, site ssa.Instruction) Value {
 		tb := ex.b
 		got, want := a[1].(F), a[2].(F)
-		ob := tb.And(ex.defTerm(got), ex.defTerm(want), tb.Eq(got.T, want.T))
+		// wherever the reference is defined the implementation must be defined and equal
+		ob := tb.Implies(ex.defTerm(want), tb.And(ex.defTerm(got), tb.Eq(got.T, want.T)))
 		// margin: clearly different values or an undefined result
 		diff := tb.RSub(got.T, want.T)
 		h := tb.RatI(1, 100)
@@ -733,6 +749,9 @@ var vrtIntrinsics = map[string]intrinsicFn{
 	},
 	"Nm": func(ex *Exec, _ *ssa.Function, a []Value, _ ssa.Instruction) Value {
 		return nameOf(ex, a)
+	},
+	"Concretize": func(ex *Exec, _ *ssa.Function, a []Value, _ ssa.Instruction) Value {
+		return ex.concInt(a[0], "Concretize")
 	},
 	"Symbolic": func(ex *Exec, _ *ssa.Function, a []Value, _ ssa.Instruction) Value {
 		return ex.concrete == nil
